@@ -2704,6 +2704,9 @@ func (col *DatabaseCollectionWithUser) documentUpdateFunc(
 	createNewRevIDSkipped bool,
 	err error) {
 
+	// Error returns below are bare: keep the caller's accumulated unused sequences so they can be released.
+	retUnusedSequences = unusedSequences
+
 	err = validateExistingDoc(doc, allowImport, docExists)
 	if err != nil {
 		return
@@ -2795,6 +2798,7 @@ func (col *DatabaseCollectionWithUser) documentUpdateFunc(
 		}
 		return
 	}
+	retUnusedSequences = unusedSequences
 
 	// The callback has updated the HLV for mutations coming from CBL. Set the current version (to the
 	// pre-generated value for new-version events) before updateChannels, which needs it for removals.
@@ -2910,8 +2914,13 @@ func (db *DatabaseCollectionWithUser) updateAndReturnDoc(ctx context.Context, do
 			}
 
 			isNewDocCreation = currentValue == nil
+			loadedSequence := doc.Sequence
 			updatedDoc.Expiry, newRevID, storedDoc, oldBodyJSON, unusedSequences, changedAccessPrincipals, changedRoleAccessUsers, createNewRevIDSkipped, err = db.documentUpdateFunc(ctx, !isNewDocCreation, doc, allowImport, docSequence, unusedSequences, callback, expiry, docUpdateEvent)
 			if err != nil {
+				// If a sequence was assigned before the failure, track it so that it is released below.
+				if doc.Sequence != loadedSequence {
+					docSequence = doc.Sequence
+				}
 				return
 			}
 			// If importing and the sync function has modified the expiry, allow sgbucket.MutateInOptions to modify the expiry
